@@ -29,13 +29,18 @@ def insertObj (attrs : List Attr) : List Attr → List Attr → List Attr
 def sortedAttrs (classes : List (List Attr)) : List Attr :=
   classes.foldl (fun attrs obj => insertObj attrs [] obj) []
 
-/-- `merge_attributes(target, source)`: `x or 0`, `x or 1` are the code's spelling -/
+/-- `merge_attributes(target, source)`: `x or 0`, `x or 1` are the code's spelling; the
+interleaving marker (the restrictions path) is kept from whichever occurrence has one -/
 def mergeAttributes (t s : Attr) : Attr :=
   { t with
     -- `extend` consumes the generator lazily: `tp not in target.types` sees the growing list
     types := s.types.foldl (fun acc tp => if acc.contains tp then acc else acc ++ [tp]) t.types
     min := Nat.min t.min s.min
-    max := Nat.max (if t.max = 0 then 1 else t.max) (if s.max = 0 then 1 else s.max) }
+    max := Nat.max (if t.max = 0 then 1 else t.max) (if s.max = 0 then 1 else s.max)
+    -- `if not target.restrictions.path: target.restrictions.path = source.restrictions.path`
+    seq := match t.seq with
+      | some q => some q
+      | none => s.seq }
 
 /-- `list.pop(pos)` -/
 def popAt (xs : List Attr) (pos : Nat) : List Attr := xs.take pos ++ xs.drop (pos + 1)
